@@ -221,6 +221,39 @@ def overdetermined_histories(ctx):
             ctx.fail(f"history-raises:{fk.exc_kind(e)}:overdetermined", f"{label}: {e!r}"[:300], case)
 
 
+def redundant_precise_readings(ctx):
+    """two very precise readings of the SAME state (front and rear encoder), with the optional extra validation switched on: the
+    innovation covariance is nearly singular, the update is still a valid one and must not be refused"""
+    dt = Symbol("dt")
+    p, v, a = sympy.symbols("pos7 vel7 acc7")
+    d = gen.Definition(dt, [p, v], [a], [], {p: p + dt * v, v: v + dt * a}, {"pair": {"front": p, "rear": p}})
+    from fractions import Fraction as Fr
+    for extra in (True, False):
+        case = {"model": "redundant-precise-readings", "extra_validation": extra, "def": d.describe()}
+        ctx.case(case, True); ctx.count("model=redundant-precise-readings")
+        try:
+            ekf = eh.compile_ekf(d, {"acc7": Fr(1, 2)}, {"pair": {"front": Fr(1, 10 ** 9), "rear": Fr(1, 10 ** 9)}}, {}, ctx.rng, cse=True, filtering=None,
+                                 max_dt=0.5, extra_validation=extra)
+        except Exception as e:
+            ctx.fail(f"compile-ekf-raises:{fk.exc_kind(e)}", repr(e)[:300], case); continue
+        for trial in range(4):
+            A = np.array([[float(gen.dyadic(ctx.rng, -2, 2)) for _ in range(2)] for _ in range(2)])
+            st, cov = ekf.State(pos7=1.0, vel7=-0.5), ekf.Covariance.from_data(A @ A.T + np.eye(2) * 0.25)
+            try:
+                with fk.quiet():
+                    for k in range(3):
+                        pred = ekf.sensor_models["pair"].model(st)
+                        st, cov = ekf.sensor_model(st, cov, sensor_key="pair", sensor_reading=ekf.make_reading("pair", data=pred.data + np.array([[1e-5], [-1e-5]])))
+                        st, cov = ekf.process_model(0.25, st, cov, ekf.Control(acc7=0.25))
+                me, asym = min_eig_rel(cov.data)
+                if me < -1e-9 or asym > 1e-9:
+                    ctx.fail("covariance-invalid:redundant-readings", f"min eigenvalue/scale={me:.3e}, asymmetry/scale={asym:.3e}", dict(case, trial=trial)); break
+            except AssertionError as e:
+                ctx.fail("covariance-refused:redundant-readings", f"a step refuses a valid update ({(str(e).splitlines() or ['AssertionError'])[0][:120]})", dict(case, trial=trial)); break
+            except Exception as e:
+                ctx.fail(f"history-raises:{fk.exc_kind(e)}:redundant-readings", repr(e)[:300], dict(case, trial=trial)); break
+
+
 def run(ctx):
     audit = core.lean_audit("C09")
     # (a) short exact histories against the Lean model (predict / update chains)
@@ -273,6 +306,7 @@ def run(ctx):
             float_history(ctx, tame_definition(ctx.rng, False), "rocket-lite", nops // 3, False)
     slowly_varying_precise_history(ctx)
     overdetermined_histories(ctx)
+    redundant_precise_readings(ctx)
     cpp_histories(ctx)
     return core.finish(ctx, audit, NOTE, RULE, PARTIAL)
 
